@@ -39,6 +39,7 @@ def answerLine (line : String) : String :=
       | "views" => MemE.views kv
       | "chunks" => MemE.chunks kv
       | "regroup" => MemE.regroup kv
+      | "xmute" => MemE.xmute kv
       | "hist" => HistE.answer kv
       | "hex" => HexE.answer kv
       | "heap" => HeapE.answer kv
